@@ -282,8 +282,7 @@ theorem tinyOK_take {s s' : St} {size : Nat} {out : Bytes} (hT : TinyOK s)
 
 /-! ### loops and whole calls -/
 
-theorem tinyOK_slowLoop {o : Oracle} {op B M : Nat} {c0 : SState} {n total : Nat}
-    (hB : OracleBounded o B) (hM : (14 + 176 + B) / 8 ≤ M) (hop : op ≤ 2) :
+theorem tinyOK_slowLoop {o : Oracle} {op : Nat} {c0 : SState} {n total : Nat} (hop : op ≤ 2) :
     ∀ fuel s io s' io' r, SlowInv op c0 n total s io → TinyOK s → s.lastBytesBits ≤ 14 →
       slowLoop o op fuel s io = .ok (s', io', r) → TinyOK s' := by
   intro fuel
@@ -307,15 +306,14 @@ theorem tinyOK_slowLoop {o : Oracle} {op B M : Nat} {c0 : SState} {n total : Nat
         rcases hP.st with h1 | ⟨_, h2, _⟩
         · exact hP.nonproc (by rw [← h1]; exact hne)
         · exact h2
-      obtain ⟨_, d2⟩ := slowStep_decreases hP.inv (by rw [hP.sum]; exact hP.nowrap) hnp hB hM hl hop hs
+      obtain ⟨_, _, d2⟩ := slowStep_decreases (M := 0) hP.inv (by rw [hP.sum]; exact hP.nowrap) hnp hl hop hs
       exact ih _ _ _ _ _ (slowInv_step hP hs).2 (tinyOK_slowStep hP.inv hT hl hnmd hs) d2 h
     · rename_i s1 io1 hs
       simp only [Out.ok.injEq, Prod.mk.injEq] at h
       obtain ⟨rfl, _, _⟩ := h
       exact tinyOK_cfc (tinyOK_slowStep hP.inv hT hl hnmd hs)
 
-theorem tinyOK_fastLoop {o : Oracle} {op B M : Nat}
-    (hB : OracleBounded o B) (hM : (14 + 176 + B) / 8 ≤ M) (hop : op ≤ 2) :
+theorem tinyOK_fastLoop {o : Oracle} {op : Nat} (hop : op ≤ 2) :
     ∀ fuel s io s' io', TinyOK s → s.lastBytesBits ≤ 14 → fastLoop o op fuel s io = .ok (s', io') → TinyOK s' := by
   intro fuel
   induction fuel with
@@ -327,13 +325,13 @@ theorem tinyOK_fastLoop {o : Oracle} {op B M : Nat}
     · simp at h
     · simp at h
     · rename_i s1 io1 hs
-      exact ih _ _ _ _ (tinyOK_fastStep hT hl hs) (fastStep_decreases hB hM hl hop hs).2 h
+      exact ih _ _ _ _ (tinyOK_fastStep hT hl hs) (fastStep_decreases (M := 0) hl hop hs).2.2 h
     · rename_i s1 io1 hs
       simp only [Out.ok.injEq, Prod.mk.injEq] at h
       obtain ⟨rfl, _⟩ := h
       exact tinyOK_fastStep hT hl hs
 
-theorem tinyOK_mdLoop {o : Oracle} {n B M : Nat} (hB : OracleBounded o B) (hM : (14 + 176 + B) / 8 ≤ M) :
+theorem tinyOK_mdLoop {o : Oracle} {n : Nat} :
     ∀ fuel s io s' io' r, MdInv n s io → TinyOK s → s.lastBytesBits ≤ 14 →
       processMetadataLoop o fuel s io = .ok (s', io', r) → TinyOK s' := by
   intro fuel
@@ -348,7 +346,7 @@ theorem tinyOK_mdLoop {o : Oracle} {n B M : Nat} (hB : OracleBounded o B) (hM : 
     · rename_i s1 io1 hs
       exact absurd rfl (mdStep_spec hP hs).1
     · rename_i s1 io1 hs
-      obtain ⟨_, d2⟩ := mdStep_decreases hP hB hM hl hs
+      obtain ⟨_, d2⟩ := mdStep_decreases (M := 0) hP hl hs
       rcases (mdStep_spec hP hs).2 with h1 | ⟨h1, _⟩
       · exact ih _ _ _ _ _ h1 (tinyOK_mdStep hP hT hl hs) d2 h
       · cases h1
@@ -371,9 +369,8 @@ theorem tinyOK_mdEnter {s : St} (hT : TinyOK s) (n : Nat) : TinyOK (mdEnter s n)
     simp at hb
   · exact hT
 
-/-- **`TinyOK` is preserved by every call** (given the state invariant and bounded oracle answers) -/
-theorem tinyOK_call {o : Oracle} {B M fuel op cap : Nat} {input : Bytes} {s s' : St} {io' : Io} {r : Bool}
-    (hB : OracleBounded o B) (hM : (14 + 176 + B) / 8 ≤ M)
+/-- **`TinyOK` is preserved by every call** (given the state invariant; whatever the oracle answers) -/
+theorem tinyOK_call {o : Oracle} {fuel op cap : Nat} {input : Bytes} {s s' : St} {io' : Io} {r : Bool}
     (hop : op ≤ 3) (hI : Inv s) (hw : s.inputPos + input.length < two64) (hl : s.lastBytesBits ≤ 14)
     (hT : TinyOK s)
     (h : compressStream o fuel s op input cap = .ok (s', io', r)) : TinyOK s' := by
@@ -437,7 +434,7 @@ theorem tinyOK_call {o : Oracle} {B M fuel op cap : Nat} {input : Bytes} {s s' :
                   · exact absurd ⟨by rw [← u7]; exact hrm, Or.inl hne⟩ hg
                 exact ⟨hIu, hst, hIu.mdLe hrm, hav, Nat.le_refl _⟩
             obtain ⟨_, _, m3, _, _⟩ := mdEnter_fields (updateSizeHint s 0) input.length
-            exact tinyOK_mdLoop hB hM fuel _ _ _ _ _ hP (tinyOK_mdEnter (tinyOK_hint hT 0) _) (by rw [m3, u14]; exact hl) h
+            exact tinyOK_mdLoop fuel _ _ _ _ _ hP (tinyOK_mdEnter (tinyOK_hint hT 0) _) (by rw [m3, u14]; exact hl) h
       · rename_i hop3
         have hop2 : op ≤ 2 := by omega
         have hrm : s.remainingMetadata = u32Max := by
@@ -463,10 +460,10 @@ theorem tinyOK_call {o : Oracle} {B M fuel op cap : Nat} {input : Bytes} {s s' :
             · rename_i s1 io1 hl1
               simp only [Out.ok.injEq, Prod.mk.injEq] at h
               obtain ⟨rfl, _, _⟩ := h
-              exact tinyOK_cfc (tinyOK_fastLoop hB hM hop2 fuel _ _ _ _ hT hl hl1)
+              exact tinyOK_cfc (tinyOK_fastLoop hop2 fuel _ _ _ _ hT hl hl1)
             · simp at h
             · simp at h
-          · exact tinyOK_slowLoop (c0 := s.streamState) (n := input.length) (total := s.inputPos + input.length) hB hM hop2 fuel s _ _ _ _
+          · exact tinyOK_slowLoop (c0 := s.streamState) (n := input.length) (total := s.inputPos + input.length) hop2 fuel s _ _ _ _
               ⟨hI, rfl, hw, hrm, Nat.le_refl _, haccp, Or.inl rfl⟩ hT hl h
 
 end BV.Stream
